@@ -175,7 +175,7 @@ func (hs *HTTPServer) configureHTTPS() error {
 	if hs.config.CertFile == "" && hs.config.KeyFile == "" {
 		hs.log.Info("no TLS certificate provided, using self-signed certificate")
 	} else {
-		hs.log.Debug("loading TLS certificate from %s and %s", hs.config.CertFile, hs.config.KeyFile)
+		hs.log.Debug("loading TLS certificate from %s and %s", hs.config.CertFile, redactData(hs.config.KeyFile))
 	}
 
 	hs.srv.TLSConfig = httpsTLSConfigTemplate()
@@ -188,7 +188,7 @@ func (hs *HTTPServer) configureHTTP2() error {
 	if hs.config.CertFile == "" && hs.config.KeyFile == "" {
 		hs.log.Info("no TLS certificate provided, using self-signed certificate")
 	} else {
-		hs.log.Debug("loading TLS certificate", "cert", hs.config.CertFile, "key", hs.config.KeyFile)
+		hs.log.Debug("loading TLS certificate", "cert", hs.config.CertFile, "key", redactData(hs.config.KeyFile))
 	}
 
 	hs.srv.TLSConfig = h2TLSConfigTemplate()
